@@ -2,13 +2,26 @@
 
 use crate::runner::{entry, Entry};
 
+pub mod c03;
 pub mod c07;
 pub mod c08;
 pub mod c09;
+pub mod c10;
+pub mod c11;
+pub mod c12;
+pub mod c16;
 pub mod c17;
 
 pub fn registry() -> Vec<Entry> {
     vec![
+        entry::<c03::C03>(
+            "C03",
+            700,
+            4000,
+            200_000,
+            "arbitrary well-formed programs in the stated domain (regions of labelled blocks with random branches/jumps/calls, cross-region jumps, shared tails, several labels per entry, multiple returns, exit ecalls inside functions, fall-through into functions, dead blocks; no indirect jump but ret) x 4-6 initial register/memory/environment vectors executed on the reference machine. Checked: successor/predecessor sets are exact inverses and stay inside the graph; every executed intra-procedural transfer (incl. call -> next instruction on return) is an edge; every edge is a fall-through, a jump to the written label or the merge of an extra return; exit ecalls have no successors; no executed line is reported unreachable. Programs with several returns are analysed 3 times (hash orders). Non-trivial = has a backward branch or a call and executed >= 5 distinct lines.",
+            &["reference machine", "programs the analyzer rejects with a CFG error are skipped and counted (C16 covers them)"],
+        ),
         entry::<c07::C07>(
             "C07",
             400,
@@ -39,6 +52,38 @@ pub fn registry() -> Vec<Entry> {
             250_000,
             "generated programs (all statement forms, data section, optional malformed lines, optional include split, optional CRLF) rendered with every surface freedom (indentation, separators, case, register spelling, radix, inline labels, comments, blank lines, leading blank lines, omitted zero offsets). Every lexer token is compared with a reference tokenizer; every node, operand, parse error and diagnostic must have consistent line/column/raw, lie on one line, and designate exactly a statement / operand / label span of the renderer's source map (or whole tokens). Non-trivial = token on line 0 after column 0, or leading blank line, or ')'-terminated instruction, or diagnostic in an included file.",
             &["reference tokenizer written from the documented token classes", "directive nodes are checked at their start only (data lists may continue on following lines)", "diagnostics attached to no file are left to C16"],
+        ),
+        entry::<c10::C10>(
+            "C10",
+            500,
+            3000,
+            100_000,
+            "arbitrary programs (several entry labels, several returns, shared code, data labels next to code, 1-2 CFG faults incl. several undefined labels) and syntactic programs with malformed lines, single- and multi-file (include split). The library entry point RVParser::run is called 6 (thorough: 12) times on fresh readers (new file/node uuids and hasher keys each time): the sequences of (file, range, title, level, description, related) must be identical, and within one run no two items may agree in all fields. Thorough also compares separate rva processes in every output mode. Non-trivial = >= 2 diagnostics and an order-sensitive shape; detection probability for a two-way hash-order tie is 1-2^-(R-1).",
+            &["hash seeds and uuids cannot be enumerated or seeded from outside; they are sampled by repetition"],
+        ),
+        entry::<c11::C11>(
+            "C11",
+            500,
+            4000,
+            200_000,
+            "arbitrary label/call arrangements (several labels on one entry, interleaved bodies via cross-region jumps, shared tails, fall-through into functions, calls to inner labels, recursion, functions only called from dead code, multiple returns), each analysed 3 times (hash orders). From the text: F = labels named by jal-with-ra/call; required: function entries = F; nodes() of each function = nodes reachable from its entry over the observed edges (own BFS by identity); each node's owner list = functions that reach it; the exit is a reached return and every other return of a non-overlapping function leads to it; a node-in-many-functions diagnostic exists iff some node has >= 2 owners. Non-trivial = >= 2 functions and one of the listed arrangements.",
+            &["interrupt-vector installation (la + csrw utvec) is not generated", "duplicates inside nodes() are counted, not reported (the statement is about the set)"],
+        ),
+        entry::<c12::C12>(
+            "C12",
+            500,
+            3000,
+            150_000,
+            "arbitrary programs (loops, irreducible flow via cross-region jumps, recursion, many exits and returns) x a random sequence (length 0-6) of extra pass runs drawn from {value analysis, ecall termination, liveness}. Snapshot (edges by index, value/memory facts, liveness, u_def, function annotations, diagnostics) after the standard pipeline must equal the snapshot after the extra sequence and the snapshot of a second, fresh analysis; hook counters bound the sweeps: value analysis <= 4*(4+2n) over its four runs, liveness <= 4+2n. Non-trivial = loop, several returns or exit inside a function, and >= 8 nodes.",
+            &["sweep counters come from the guarded hook commit", "bounds were calibrated on the repaired tree with 2x headroom (maxima are reported in the evidence)"],
+        ),
+        entry::<c16::C16>(
+            "C16",
+            400,
+            4000,
+            200_000,
+            "parse-clean arbitrary programs with 1-2 injected CFG-level faults of 12 kinds (undefined label in j/branch/call/la/load, several undefined labels, duplicate code/function label, label at end of file as jump target or unused, function without return (infinite loop / exit inside), call to a data label), optionally cut into an included file. Required: undefined/duplicate labels give an error naming the label located at a use/definition of it; any other error that stops the analysis is specific (not 'unexpected'/'assertion'), attached to a user file and has a non-empty location. Non-trivial = at least one fault injected (tabulated per kind).",
+            &["when undefined and duplicate labels occur together one correctly located error is accepted (analysis stops at the first)", "a combined error for several undefined labels is accepted when it is located at an occurrence of one of them"],
         ),
         entry::<c17::C17>(
             "C17",
